@@ -64,19 +64,37 @@ class FakeTask:
         self.env, self.coro = env, coro
         self.cancel_requested = False
         self.finished = False
+        self.started = False
+        self.was_cancelled = False
         self.result = None
 
     def cancel(self):
+        if self.finished:
+            return False
         self.cancel_requested = True
         return True
 
     def cancelled(self):
-        return False
+        return self.was_cancelled
+
+    def done(self):
+        return self.finished
 
     def run(self):
+        """The task gets to run (the loop schedules it, or somebody awaits it).  asyncio: a task
+        that was cancelled before its first step never runs its body - it ends cancelled and its
+        awaiter gets CancelledError.  Whether the loop had a turn between create_task() and the
+        cancel is the harness's choice (loop.tasks_start_at_once, default: it had)."""
+        import asyncio
         if not self.finished:
-            self.finished = True
-            self.result = self.env.w.run_coro(self.coro)
+            if self.cancel_requested and not self.started and not self.env.loop.tasks_start_at_once:
+                self.finished = self.was_cancelled = True
+            else:
+                self.started = True
+                self.finished = True
+                self.result = self.env.w.run_coro(self.coro)
+        if self.was_cancelled:
+            raise prog(asyncio.CancelledError())
         return self.result
 
     def __symex_await__(self, it):
@@ -108,6 +126,7 @@ class FakeLoop:
         self.tasks = []
         self.handles = []
         self.connections = []
+        self.tasks_start_at_once = True  # False: a new task has not run a step until driven
 
     def run_in_executor(self, executor, fn, *args):
         try:
